@@ -12,6 +12,8 @@ var HTMLTokens = []string{
 	"<", ">", "&", "\"", "'", "`", "=", "/", " ", "\t", "\n", "\f", "\r", "\r\n", "</", "-->", "<!--", "--!>",
 	"<script>", "</script>", "</style>", "</textarea>", "</title>", "&quot;", "&#34;", "&#x22;", "&lt", "&amp;", "&amp;lt;", "]]>", "<![CDATA[",
 	" onerror=", "x", "a", "=x", "\x00", "\x7f", "\u0085", "\u2028", "\ufeff", "é", "世", "😀", "\\", "\\\"", "%22", "javascript:",
+	// format verbs: a value must never be used as (part of) a format string
+	"%", "%q", "%s", "%d", "%v", "%[1]q", "100%", "%!", "%%",
 }
 
 var JSTokens = []string{
